@@ -136,7 +136,18 @@ def execute(ctx, case: dict) -> None:
         return
     objs = []
     for n, text in enumerate(case["items"]):
-        obj = cls(text, platform=platform, note=f"n{n}" if n % 3 == 0 else None)
+        if n in case.get("former_groups", []) and case["cls"] == "Address":
+            # an address that was a group reference with members before it got its (plain, contiguous) text
+            word = "object-group" if platform == "ios" else "addrgroup"
+            obj = cls(f"{word} OLD{n}", platform=platform, note=f"n{n}" if n % 3 == 0 else None,
+                      items=["host 10.250.0.1", "10.251.0.0/30" if platform == "nxos" else "10.251.0.0 0.0.0.3"])
+            obj.line = text
+            ctx.count("inputs_that_were_groups_before")
+        else:
+            obj = cls(text, platform=platform, note=f"n{n}" if n % 3 == 0 else None)
+        if n in case.get("numbered", []) and case["cls"] == "AddressAg":
+            obj.sequence = 10 * (n + 1)  # a numbered group entry (NX-OS native, IOS after resequence)
+            ctx.count("numbered_inputs")
         objs.append(obj)
     union_all = bits.union_size([_cube_of(o) for o in objs]) == 1 << 32
     try:
@@ -274,6 +285,10 @@ def gen_cases(ctx):
         if rng.random() < 0.4:
             n = len(texts)
             case["again"] = [rng.sample(range(n), rng.randint(1, n)) for _ in range(rng.randint(1, 3))]
+        if cls == "Address" and rng.random() < 0.15:
+            case["former_groups"] = rng.sample(range(len(texts)), rng.randint(1, min(2, len(texts))))
+        if cls == "AddressAg" and rng.random() < 0.3:
+            case["numbered"] = [0] + rng.sample(range(len(texts)), rng.randint(0, len(texts) - 1))
         yield case
         if len(texts) <= 5:
             perms = list(itertools.permutations(texts))
